@@ -420,6 +420,24 @@ static int t_flags (int fam) {
 	PSocket *c = p_socket_new (pfam (fam), P_SOCKET_TYPE_STREAM, P_SOCKET_PROTOCOL_TCP, &err);
 	PSocket *u = p_socket_new (pfam (fam), P_SOCKET_TYPE_DATAGRAM, P_SOCKET_PROTOCOL_UDP, &err);
 	PSocketAddress *a = p_socket_address_new (loop_addr (fam), (puint16) port);
+	/* accepts that fail for a real reason come first: what a later successful accept returns must not depend on them
+	 * (state carried from one call or one socket to the next): a stream socket that is not listening (EINVAL), a datagram
+	 * socket (EOPNOTSUPP), a non-blocking listener with nobody connecting (would block) */
+	{
+		PSocket *nl = p_socket_new (pfam (fam), P_SOCKET_TYPE_STREAM, P_SOCKET_PROTOCOL_TCP, &err);
+		PSocket *x;
+		if (!nl) FAILF ("socket: %s", p_error_get_message (err));
+		p_socket_set_blocking (nl, FALSE);
+		if ((x = p_socket_accept (nl, NULL)) != NULL) FAILF ("accept on a socket that is not listening returned a socket");
+		p_socket_set_blocking (u, FALSE);
+		if ((x = p_socket_accept (u, NULL)) != NULL) FAILF ("accept on a datagram socket returned a socket");
+		p_socket_set_blocking (l, FALSE);
+		if ((x = p_socket_accept (l, &err)) != NULL) FAILF ("non-blocking accept with nobody connecting returned a socket");
+		if (p_error_get_code (err) != P_ERROR_IO_WOULD_BLOCK) FAILF ("non-blocking accept with nobody connecting: code %d, not would-block", p_error_get_code (err));
+		p_error_free (err); err = NULL;
+		p_socket_set_blocking (l, TRUE);
+		p_socket_free (nl);
+	}
 	if (!p_socket_connect (c, a, &err)) FAILF ("connect: %s", p_error_get_message (err));
 	PSocket *srv = p_socket_accept (l, &err);
 	if (!srv) FAILF ("accept: %s", p_error_get_message (err));
